@@ -87,7 +87,7 @@ def h_open(ctx, llen, plen, rel, ordered, custom_id):
         ctx.observe("n", len(events))
 
 
-def h_ids(ctx, role, nexisting):
+def h_ids(ctx, role, nexisting, nclosed=0):
     """Automatic id allocation at flush time: role parity, unused, sides never collide."""
     with Env(crc=_crc()) as env:
         t = env.transport(role, established=True, local_tsn=100, remote_tsn=200)
@@ -98,6 +98,13 @@ def h_ids(ctx, role, nexisting):
                 ctx.assume(x != y)
             existing.append(x)
             env.channel(t, id=x)
+        # channels (of either side, any id) that lived and were closed before: their ids are free again
+        for i in range(nclosed):
+            y = ctx.int("closed%d" % i, 0, 12)
+            for z in existing:
+                ctx.assume(y != z)
+            env.channel(t, id=y)
+            t._data_channel_closed(y)
         ch = RTCDataChannel(t, RTCDataChannelParameters(label="x"))
         env.drain()
         ctx.reach("id-allocated")
@@ -459,7 +466,7 @@ def _open_jobs(tier):
 
 HARNESSES = {
     "open": Harness("open", h_open, _open_jobs, style="RT", bounds="label and protocol of 0..2 code points each over full Unicode (surrogates excluded), reliable / maxRetransmits / maxPacketLifeTime (16-bit symbolic), ordered or not, automatic or explicit symbolic id", encoded=ENC, stubs=STUBS, twin="open-delivered"),
-    "ids": Harness("ids", h_ids, lambda tier: [{"role": r, "nexisting": n} for r in ("controlling", "controlled") for n in (0, 1, 2, 3)], style="STEP", bounds="<=3 existing channels with symbolic distinct ids 0..12, both roles", encoded=ENC, stubs=STUBS, twin="id-allocated"),
+    "ids": Harness("ids", h_ids, lambda tier: [{"role": r, "nexisting": n} for r in ("controlling", "controlled") for n in (0, 1, 2, 3)] + [{"role": r, "nexisting": n, "nclosed": c} for r in ("controlling", "controlled") for n in (0, 1) for c in (1, 2)], style="STEP", bounds="<=3 existing channels with symbolic distinct ids 0..12, both roles; in a second job set 1..2 further channels (any id, either side's parity) that were closed before", encoded=ENC, stubs=STUBS, twin="id-allocated"),
     "flush-params": Harness("flush-params", h_flush_params, lambda tier: [{"n": n} for n in ((2,) if tier == "quick" else (2, 3))], style="BMC over configurations", bounds="2 (quick) / 3 negotiated channels of solver-chosen kind {reliable, maxRetransmits, maxPacketLifeTime, unordered}; 2 / 3 queued messages (DCEP or data, solver-chosen channel) flushed in one call", encoded=ENC + ["aiortc.rtcsctptransport:RTCSctpTransport._data_channel_flush"], stubs=STUBS + ["RTCSctpTransport._send -> recorder"], twin="flushed", opts={"samples": 1}),
     "close-early": Harness("close-early", h_close_early, lambda tier: [{"negotiated": n} for n in (True, False)], style="STEP", bounds="one channel with an explicit symbolic id 0..65534 (negotiated or in-band) closed before the association is established, the id re-used at once, then establishment", encoded=ENC, stubs=STUBS, twin="closed-early", opts={"samples": 1}),
     "states": Harness("states", h_states, lambda tier: [{"pre": p, "event": e} for p in PRE for e in EVENTS] + [{"pre": p, "event": e, "negotiated": True} for p in ("open", "closing", "closing-requested", "closed") for e in ("assoc-established", "assoc-closed", "dcep", "reset-in")], style="STEP", bounds="6 abstract pre-states x 7 events; channel id, DCEP message byte, stream ids and sequence numbers of the RE-CONFIG parameters symbolic (the solver decides whether they match the channel / the pending request)", encoded=ENC, stubs=STUBS, twin="event-processed"),
